@@ -107,15 +107,26 @@ def PL(x):
     return Plucker(x)
 
 
-def _rel_sides(r, what, ctx):
-    """a predicate called on symbols returns the comparison itself: residual < tolerance"""
+def _rel_sides(r, what, ctx, side='lhs', rel_scale=None):
+    """a predicate called on symbols returns the comparison itself: residual < tolerance [* scale].
+    Returns the requested side; checks (fail-soft) that the default tolerance is in (0, 1e-9]: the numeric right-hand side,
+    or, for a scale-relative test, the right-hand side under the shadow valuation divided by rel_scale()."""
     if not isinstance(r, sympy.StrictLessThan):
         ctx.fail(f'shape:{what}', f"{what} on symbols no longer returns `residual < tol` but {r}", no_input=True)
         raise PathMismatch(what)
-    tolv = float(r.rhs)
-    if not (0 < tolv <= 1e-9):
-        ctx.fail(f'const:{what}:tol', f"default tolerance of {what} is {tolv!r}: not in (0, 1e-9]", {'tol': tolv})
-    return r.lhs
+    try:
+        rhs = sympy.sympify(r.rhs)
+        if rhs.free_symbols:
+            if rel_scale is None:
+                raise ValueError(f"tolerance is not a constant: {rhs}")
+            tolv = float(rhs.subs(concolic.VAL)) / float(rel_scale())
+        else:
+            tolv = float(rhs)
+        if not (0 < tolv <= 1e-9):
+            ctx.fail(f'const:{what}:tol', f"default tolerance of {what} is {tolv!r}: not in (0, 1e-9]", {'tol': tolv})
+    except Exception as ex:  # noqa
+        ctx.fail(f'const:{what}:tol', f"cannot read the default tolerance of {what}: {type(ex).__name__}: {ex}", no_input=True)
+    return r.lhs if side == 'lhs' else r.rhs
 
 
 # samplers for the correspondence run (inputs on which the numeric code follows the traced path)
@@ -143,7 +154,29 @@ def s_meeting(rng):
     return [np.r_[np.cross(wa, c), wa], np.r_[np.cross(wb, c), wb]]
 
 
+class numeric_branches:
+    """While tracing, take the NUMERIC branch of code that special-cases symbolic values (since /repo 2d89a18 `unitvec` skips its
+    zero-length test when the length is a SymPy expression): the module flag `_symbolics` of spatialmath.base.vectors is switched
+    off in the harness process, so the real test `n >= 10*_eps` runs on the symbol, is decided concolically and recorded as a
+    path atom -- the model then mirrors what the library does on floats, which is what the property is about."""
+    def __enter__(self):
+        import spatialmath.base.vectors as V
+        self.V, self.old = V, getattr(V, '_symbolics', None)
+        if self.old is not None:
+            V._symbolics = False
+        return self
+
+    def __exit__(self, *a):
+        if self.old is not None:
+            self.V._symbolics = self.old
+
+
 def build(ctx):
+    with numeric_branches():
+        return _build(ctx)
+
+
+def _build(ctx):
     g = Gen('C19')
     V3, V4, V6, S = 'V3', 'V4', 'V6', 'S'
     # ---- constructors (polynomial, no branches)
@@ -168,9 +201,15 @@ def build(ctx):
     # ---- pairs of lines
     ctrace(ctx, g, 'tr_eq_res', [('L', V6), ('M', V6)], lambda L, M: _rel_sides(PL(L) == PL(M), 'Plucker.__eq__', ctx),
            'tt', 'eq', num_fn=lambda L, M: abs(1 - np.dot(base.unitvec(L), base.unitvec(M))))
+    # isparallel: |w1 x w2| < tol |w1| |w2|  (relative since /repo b223bb8): both sides are traced
+    _setval(**GENERAL)
+    wscale = lambda: nrm(GENERAL['L'][3:]) * nrm(GENERAL['M'][3:])
     g.trace('tr_isparallel_res', [('L', V6), ('M', V6)],
-            lambda L, M: _rel_sides(PL(L).isparallel(PL(M)), 'Plucker.isparallel', ctx),
+            lambda L, M: _rel_sides(PL(L).isparallel(PL(M)), 'Plucker.isparallel', ctx, rel_scale=wscale),
             num_fn=lambda L, M: np.linalg.norm(np.cross(L[3:], M[3:])))
+    g.trace('tr_isparallel_thr', [('L', V6), ('M', V6)],
+            lambda L, M: _rel_sides(PL(L).isparallel(PL(M)), 'Plucker.isparallel', ctx, side='rhs', rel_scale=wscale),
+            num_fn=lambda L, M: 10 * EPS * np.linalg.norm(L[3:]) * np.linalg.norm(M[3:]), optional=True)
     g.trace('tr_recip', [('L', V6), ('M', V6)], lambda L, M: PL(L) * PL(M), sampler=lambda rng: [s_line(rng), s_line(rng)])
     ctrace(ctx, g, 'tr_commonperp', [('L', V6), ('M', V6)], lambda L, M: PL(L).commonperp(PL(M)).vec, 'F', 'commonperp',
            tol=1e-10)
@@ -376,7 +415,12 @@ class Oracle:
         ctx.case(('eq', tuple(P), tuple(w), k))
         same = Plucker.PointDir(P + t * w, k * w)
         opp = Plucker.PointDir(P + t * w, -k * w)
-        shifted = Plucker.PointDir(P + np.cross(w, rand_unit(rng) + 1e-3) / nrm(w) * S * 1e-2, w)
+        while True:
+            perp = np.cross(w, rand_unit(rng)) / nrm(w)
+            if nrm(perp) > 0.1:
+                perp = perp / nrm(perp)       # unit vector orthogonal to the direction
+                break
+        shifted = Plucker.PointDir(P + perp * S * 1e-2, w)
         turned = Plucker.PointDir(P, dir_at_angle(rng, w, 1e-2) * nrm(w))
         self.ok('eq:rescaled', bool(L == same) and not bool(L != same), "the same oriented line with a positively rescaled direction is not ==", rp)
         self.ok('eq:reflexive', bool(L == L), "L == L is False", rp)
@@ -418,15 +462,18 @@ class Oracle:
         L1, L2 = Plucker.PointDir(p1, w1), Plucker.PointDir(p2, w2)
         par = pos in ('parallel', 'parallel-rounded', 'coincident')
         rounded = pos.endswith('rounded')
-        ptol = REL * nrm(w1) * nrm(w2)
+        ptol = REL            # relative since /repo b223bb8: sine of the angle between the directions
         # parallelism
         self.ok(f'isparallel:tol:{pos}', bool(L1.isparallel(L2, tol=ptol)) == par,
-                f"isparallel(tol=1e-9 relative) is {not par} for lines in {pos} position", rp)
+                f"isparallel(tol=1e-9) is {not par} for lines in {pos} position", rp)
+        # ... and the test does not depend on the length of either direction
+        kk = float(10.0 ** self.ctx.rng.integers(-3, 4))
+        self.ok('isparallel:scale-invariant', bool(Plucker.PointDir(p1, kk * w1).isparallel(L2)) == bool(L1.isparallel(L2)) or pos.endswith('rounded'),
+                f"isparallel() changes when the first direction is multiplied by {kk:g}", dict(rp, k=kk))
         okc, r = self.call('parallel-op', lambda: bool(L1 | L2), rp)
         if okc:
             if rounded and par:
-                self.ok('parallel-op:rounded', r, "L1 | L2 is False for parallel lines whose directions are k*w with a rounded k*w "
-                        "(absolute tolerance 10*eps on |w1 x w2|)", rp)
+                self.ok('parallel-op:rounded-kw', r, "L1 | L2 is False for parallel lines whose directions are w and a rounded k*w", rp)
             elif not rounded:
                 self.ok(f'parallel-op:{pos}', r == par, f"L1 | L2 is {r} for lines in {pos} position", rp)
         # intersection predicate
@@ -457,12 +504,12 @@ class Oracle:
             if okc:
                 self.ok('intersects:skew', r is None, "intersects() is not None for skew lines", rp)
         # common perpendicular
-        okc, C = self.call('commonperp:parallel-rounded' if rounded and par else 'commonperp', lambda: L1.commonperp(L2), rp)
+        okc, C = self.call('commonperp:parallel-rounded-kw' if rounded and par else 'commonperp', lambda: L1.commonperp(L2), rp)
         if okc:
             if par:
-                key = 'commonperp:parallel-rounded:not-none' if rounded else f'commonperp:{pos}:not-none'
+                key = 'commonperp:parallel-rounded-kw:not-none' if rounded else f'commonperp:{pos}:not-none'
                 self.ok(key, C is None, "commonperp() of parallel lines is not None" +
-                        (" (parallel test with absolute tolerance fails on rounded k*w)" if rounded else ""), rp)
+                        (" (directions w and a rounded k*w)" if rounded else ""), rp)
             elif C is None:
                 self.ok(f'commonperp:{pos}:none', False, "commonperp() of non-parallel lines is None", rp)
             else:
@@ -476,7 +523,7 @@ class Oracle:
                 self.close('commonperp:plucker-constraint', cv @ cw / (nrm(cw) ** 2), 0.0, S, rp,
                            "commonperp(): the result violates the Pluecker constraint v.w = 0")
         # distance
-        okc, d = self.call('distance:parallel-exact' if (par and not rounded) else f'distance:{pos}', lambda: L1.distance(L2), rp)
+        okc, d = self.call('distance:parallel-exact' if (par and not rounded) else ('distance:parallel-rounded-kw' if par else f'distance:{pos}'), lambda: L1.distance(L2), rp)
         if okc:
             if par:
                 dref = dist_point_line(p2, p1, w1)
@@ -486,7 +533,7 @@ class Oracle:
                 f1, f2, n = feet(p1, w1, p2, w2)
                 dref = nrm(f1 - f2)
             key = {'general': 'distance:skew', 'parallel': 'distance:parallel-exact:value', 'coincident': 'distance:parallel-exact:value',
-                   'parallel-rounded': 'distance:parallel-rounded:value'}.get(pos, 'distance:meets')
+                   'parallel-rounded': 'distance:parallel-rounded-kw'}.get(pos, 'distance:meets')
             self.close(key, d, dref, S, rp, f"distance() of lines in {pos} position")
 
     # ---------------------------------------------------------------- planes
